@@ -58,6 +58,7 @@ pub fn generate(prop: &str, tier: Tier, seed: u64, run: u64) -> Trace {
         "C09" => crate::gen_term::gen_term("C09", &mut rng, run, thorough),
         "C10" => crate::gen_term::gen_term("C10", &mut rng, run, thorough),
         "C16" => crate::gen_term::gen_term("C16", &mut rng, run, thorough),
+        "C03" => crate::gen_term::gen_c03(&mut rng, run, thorough),
         _ => Trace::new(prop, "none"),
     };
     t.origin = format!("seed={seed} run={run} tier={}", tier.name());
